@@ -23,7 +23,7 @@ __attribute__((noinline)) void e_append_rf(HDF5File* h, kickvec* k) { h->appendR
 __attribute__((noinline)) void e_append_padded(HDF5File* h, ElectricField* ef) { h->appendPadded(ef); }
 }
 struct W { psp* ps; std::shared_ptr<Impedance>* z; std::shared_ptr<Impedance>* nullz; ElectricField* rdtn; ElectricField* wake; WakePotentialMap* wkm; psp* ps2; std::vector<PhaseSpace::Position>* tracks; kickvec* kicks; std::string* fname; std::vector<uint32_t>* bk; };
-static W build(int n, int nb, size_t N, int np) {
+static W build(int n, int nb, size_t N, int np, size_t Nr = 0) {      // Nr: padded length of the radiation field when it differs from the length N of the wake impedance (main: padded_bins vs spaced_bins)
     W w{};
     PhaseSpace::resetSize(n, nb);
     std::vector<integral_t> fill(nb, 1.0f / nb);
@@ -35,7 +35,9 @@ static W build(int n, int nb, size_t N, int np) {
     auto* zv = new std::vector<impedance_t>(N); for (size_t i = 0; i <= N / 2; i++) (*zv)[i] = impedance_t(u(g), u(g) - 0.5f);
     w.z = new std::shared_ptr<Impedance>(new Impedance(*zv, 1e12f)); w.nullz = new std::shared_ptr<Impedance>();
     w.bk = new std::vector<uint32_t>(); for (int b = 0; b < nb; b++) w.bk->push_back(nb - 1 - b);
-    w.rdtn = new ElectricField(*w.ps, *w.z, *w.bk, 0, nullptr, 2.7e6, 1e-3f);
+    if (Nr && Nr != N) { auto* zr = new std::vector<impedance_t>(Nr); for (size_t i = 0; i <= Nr / 2; i++) (*zr)[i] = impedance_t(u(g), u(g) - 0.5f);
+                         auto* zrp = new std::shared_ptr<Impedance>(new Impedance(*zr, 1e12f)); w.rdtn = new ElectricField(*w.ps, *zrp, *w.bk, 0, nullptr, 2.7e6, 1e-3f); }
+    else w.rdtn = new ElectricField(*w.ps, *w.z, *w.bk, 0, nullptr, 2.7e6, 1e-3f);
     w.wake = new ElectricField(*w.ps, *w.z, *w.bk, nb > 1 ? (N - n) / (nb - 1) : 0, nullptr, 2.7e6, 1e-3f, 1e-3, 1.3e9, 4.7e-4, 3e-12);
     w.wkm = new WakePotentialMap(*w.ps, *w.ps2, w.wake, SourceMap::InterpolationType::cubic, false, nullptr);
     w.wkm->update(); w.rdtn->updateCSR(0);
@@ -57,7 +59,8 @@ int main(int argc, char** argv) {
     std::string mode = argc > 1 ? argv[1] : "";
     if (mode == "snap") {
         int n = atoi(argv[3]), nb = atoi(argv[4]); size_t N = atoi(argv[5]); int np = atoi(argv[6]);
-        W w = build(n, nb, N, np);
+        size_t Nr = argc > 7 ? atoi(argv[7]) : 0;
+        W w = build(n, nb, N, np, Nr);
         PhaseSpace* p = w.ps->get();
         snap_root("fname", w.fname); snap_root("ps", w.ps); snap_root("psobj", p); snap_root("z", w.z); snap_root("nullz", w.nullz); snap_root("rdtn", w.rdtn); snap_root("wake", w.wake); snap_root("wkm", w.wkm);
         snap_root("tracks", w.tracks); snap_root("tracks_data", w.tracks->data()); snap_root("kicks", w.kicks); snap_root("kicks_data", w.kicks->data());
